@@ -2,6 +2,7 @@
 mod c01;
 mod c02;
 mod c12;
+mod c13;
 mod c16;
 mod c18;
 mod c20;
@@ -15,10 +16,15 @@ fn main() {
     let prop = args.check[..3.min(args.check.len())].to_uppercase();
     let mut rep = vkit::Reporter::new(&prop, args.out.clone());
     let rt = tokio::runtime::Builder::new_multi_thread().worker_threads(2).enable_all().build().unwrap();
+    if args.check == "c13child" {
+        let code = rt.block_on(c13::child(&args));
+        std::process::exit(code);
+    }
     match args.check.as_str() {
         "c01" => rt.block_on(c01::run(&args, &mut rep)),
         "c02" => rt.block_on(c02::run(&args, &mut rep)),
         "c12" => rt.block_on(c12::run(&args, &mut rep)),
+        "c13" => rt.block_on(c13::run(&args, &mut rep)),
         "c16" => rt.block_on(c16::run(&args, &mut rep)),
         "c18" => rt.block_on(c18::run(&args, &mut rep)),
         "c20" => rt.block_on(c20::run(&args, &mut rep)),
